@@ -7,7 +7,8 @@ import JjModel.Lemmas.RepoMerge
   The reconciliation is `merge_view` followed by C11's `rebase_descendants`; the statements below
   are about the `merge_view` half and are combined with the C11 theorems in prose (`notes/C13.md`).
   `commits_kept` and `hidden_stay_hidden` are therefore proved in their *recording* form and carry the
-  `_partial` suffix; `wc_rule` and `refs_from_changer` are complete for one merge step.
+  `_partial` suffix; `wc_rule` (`wc_rule_merge_view`) and `refs_from_changer` are complete for one
+  merge step.
 -/
 set_option linter.unusedSimpArgs false
 namespace JjModel.C13
@@ -47,6 +48,14 @@ theorem wc_from_changer (s b o : Option Nat) :
     · simp [h1]
   · intro h; simp [h]
 
+/-- **`wc_rule`, whole phase**: after the working-copy phase of `merge_view` a workspace the other
+    side did not touch is unchanged, every other workspace holds `mergeWcValue(own, base, other)`. -/
+theorem wc_rule_merge_view (v base other : View) (name : Nat) :
+    assocGet (v.mergeWcs base other).wc name =
+      if base.wc.lookup name = other.wc.lookup name then assocGet v.wc name
+      else mergeWcValue (assocGet v.wc name) (base.wc.lookup name) (other.wc.lookup name) :=
+  mergeWcs_spec v base other name
+
 /-- a conflict (three different values) never invents a commit: removed or the self side -/
 theorem wc_conflict (s b o : Option Nat) (h1 : s ≠ o) (h2 : s ≠ b) (h3 : o ≠ b) :
     mergeWcValue s b o = if s.isNone || o.isNone then none else s := by
@@ -70,6 +79,20 @@ theorem refs_changed_by_other (r : Repo) (base other : View) (b : Nat)
     (r.mergeBookmarks base other).view.getBookmark b =
       mergeRefTargets r.store (r.view.getBookmark b) (optTarget tb) (optTarget to) :=
   mergeBookmarks_changed r base other b l1 l2 tb to hsplit h1 h2
+
+/-- **`refs_from_changer`** without side conditions: a bookmark whose value differs between the
+    base and the other view (absent = not in the map) becomes
+    `merge_ref_targets(own value, base value, other value)`. -/
+theorem refs_from_changer (r : Repo) (base other : View) (b : Nat)
+    (h : base.bookmarks.lookup b ≠ other.bookmarks.lookup b) :
+    (r.mergeBookmarks base other).view.getBookmark b =
+      mergeRefTargets r.store (r.view.getBookmark b) (optTarget (base.bookmarks.lookup b))
+        (optTarget (other.bookmarks.lookup b)) :=
+  mergeBookmarks_changed' r base other b h
+
+/-- the diff of two name maps lists every name at most once -/
+theorem diff_names_unique (a b : List (Nat × RefTarget)) : ((diffNamed a b).map (·.1)).Nodup :=
+  diffNamed_nodup a b
 
 /-- … the other side's value when the own side did not change it, -/
 theorem refs_from_other (s : Store) (tb to : RefTarget) : mergeRefTargets s tb tb to = to :=
